@@ -538,6 +538,53 @@ def twist_point(E, rng):
             return (x, y)
 
 
+def unit_forgery_scan(ctx):
+    """Many (not one) altered signatures against bignVerify and bignIdExtract: a verifier that compares only a few octets of
+    the hash half s0 still rejects a single alteration almost surely, but accepts about one in 2^(8k) of them.  Alterations:
+    s1 replaced by consecutive values (the recomputed R and with it the expected s0 change every time)."""
+    l, n, fn = ctx.params["l"], ctx.params["n"], ctx.params["fn"]
+    E = Env(ctx, l)
+    M, no, q, lib = E.M, E.no, E.q, ctx.lib
+    rng = ctx.rng
+    der = E.ders["belt-hash"]
+    H = E.le(rng.randrange(0, q))
+    if fn == "bignVerify":
+        d, k = rand_scalar(E, rng), rand_scalar(E, rng)
+        sig = M.sign_k(der, H, d, k)
+        Qb = M.point_bytes(M.C.mul(d, M.G))
+        call = lambda sg: lib.bignVerify(E.pp(), pder, len(der), pH, lib.mk(sg), pQ)
+    else:
+        e = rand_scalar(E, rng)
+        d0, Qb, sig, Rb = craft_id_chain(E, rng, e, H, der)
+        eo, Ro = lib.alloc(no), lib.alloc(2 * no)
+        call = lambda sg: lib.bignIdExtract(eo, Ro, E.pp(), pder, len(der), pH, lib.mk(sg), pQ)
+    pder, pH, pQ = lib.mk(der), lib.mk(H), lib.mk(Qb)
+    keep = list(lib._live)
+    r0 = call(sig)
+    if r0 != 0:
+        raise Harness("%s rejects the genuine signature (%s)" % (fn, r0))
+    s1 = RB.num(sig[no // 2:])
+    start = rng.randrange(1, q)
+    if not ctx.case([fn, l, n, start], "%s:forgery-scan" % fn):
+        return
+    accepted = []
+    for i in range(n):
+        v = (start + i) % q
+        if v == s1:
+            continue
+        sg = sig[:no // 2] + E.le(v)
+        r = call(sg)
+        lib.free_one(lib._live[-1])
+        if r == 0:
+            accepted.append(sg)
+    ctx.count(n - 1, "%s:forgery-scan" % fn)
+    ctx.digest(len(accepted))
+    if accepted:
+        ctx.violation("%s:accepts-invalid:one-of-many-altered-signatures" % fn,
+                      "%s accepted %d of %d signatures whose s1 was replaced (the hash half is not compared in full?)" % (fn, len(accepted), n),
+                      {"l": l, "oid": der, "H": H, "Q": Qb, "genuine": sig, "accepted": accepted[:3], "start": start})
+
+
 def unit_verify_alt(ctx):
     l, base, part, nparts = ctx.params["l"], ctx.params["base"], ctx.params["part"], ctx.params["nparts"]
     E = Env(ctx, l)
@@ -1195,6 +1242,10 @@ def jobs(tier, scale=1.0):
         for b in range(1 if quick else 8):
             for part in range(nparts):
                 js.append({"unit": "c02:unit_verify_alt", "params": {"l": l, "base": b, "part": part, "nparts": nparts}})
+    # forgery scans (l = 128, the cheapest level): 16 x 6000 altered signatures in quick, 16 x 100000 in thorough
+    for fn in ("bignIdExtract", "bignVerify"):
+        for c in range(max(1, int(round((12 if fn == "bignIdExtract" else 4) * min(1.0, scale))))):
+            js.append({"unit": "c02:unit_forgery_scan", "params": {"l": 128, "fn": fn, "chunk": c, "n": cnt(12000 if quick else 12500, 200)}})
     for l in LEVELS:
         js.append({"unit": "c02:unit_verify_edge", "params": {"l": l, "reps": cnt(1)}})
         for fn in ("KeypairGen", "Sign", "KeyWrap", "IdSign"):
@@ -1262,7 +1313,8 @@ def _weight(j):
 
 def main(run):
     quick = run.tier == "quick"
-    js = [dict(j, cfg="asan64") for j in jobs(run.tier)]
+    # (the forgery scans are pure volume: Release build)
+    js = [dict(j, cfg="rel64" if j["unit"].endswith("unit_forgery_scan") else "asan64") for j in jobs(run.tier)]
     # the H >= q classes again in the Release build: there no ASSERT stops the call and the value is compared
     js += [dict(j, cfg="rel64") for j in hq_jobs()]
     if not quick:
